@@ -964,7 +964,12 @@ func account(test string, c *Case, res result) {
 	for _, ps := range res.passes {
 		small += ps.errors
 	}
-	hx.Label(fmt.Sprintf("%s kind=%s dotu=%v msize%s entries=%s", test, c.Kind, res.dotu, msizeClass(res.msize), sizeClass(res.entries)))
+	if simulate || strings.Contains(test, "reshape") {
+		// the reshape classes are labelled below; keep the label count small
+		hx.Label(fmt.Sprintf("%s kind=%s dotu=%v initial entries=%s", test, c.Kind, res.dotu, sizeClass(res.entries)))
+	} else {
+		hx.Label(fmt.Sprintf("%s kind=%s dotu=%v msize%s entries=%s", test, c.Kind, res.dotu, msizeClass(res.msize), sizeClass(res.entries)))
+	}
 	if muts > 0 {
 		hx.Label(test + " restart-after-add/remove")
 	}
@@ -1413,13 +1418,17 @@ func TestPropClnt(t *testing.T) {
 		c.Ents, b = genDir(t, 120)
 		npass := rapid.IntRange(1, 3).Draw(t, "npass")
 		all := append([]Ent(nil), c.Ents...)
+		cur := simMut(c.Ents, nil)
 		for i := 0; i < npass; i++ {
 			p := Pass{}
 			if i > 0 && rapid.Bool().Draw(t, "mutate") {
-				p.Mut = genMut(t, b, fmt.Sprintf("m%d", i))
-				if p.Mut.Add != nil {
-					all = append(all, *p.Mut.Add)
+				if rapid.Bool().Draw(t, "reshape") {
+					p.Mut = genReshape(t, cur, b, fmt.Sprintf("r%d", i))
+				} else {
+					p.Mut = genMut(t, b, fmt.Sprintf("m%d", i))
 				}
+				all = append(all, p.Mut.adds()...)
+				cur = simMut(cur, p.Mut)
 			}
 			c.Passes = append(c.Passes, p)
 		}
